@@ -32,7 +32,7 @@ def selftest():
 
 
 def REQUIRED_COVER(tier):
-    return {'wc:-128', 'wc:127', 'variant:test-only', 'variant:std-base64', 'subst', 'raw', 'rerender'}
+    return {'wc:-128', 'wc:127', 'variant:test-only', 'variant:std-base64', 'subst', 'raw', 'rerender', 'equality'}
 
 
 def ref_friendly(wc, acc, bounceable, test_only, url_safe):
@@ -186,8 +186,53 @@ def shard_subst(rec, wcs):
     rec.sample({'wc': wcs[0], 'friendly': ref_friendly(wcs[0], bytes(32), True, False, True), 'substitutions': '48 positions x 63 characters'})
 
 
+def shard_equality(rec):
+    """sixth session (wave 9): equality is decided by (workchain, account id) and by nothing else - in particular not by the identity of the bytes
+    object two addresses were made from.  For every workchain and its neighbours (wc, wc + 1, -wc - 1, 0, -1) x three accounts x construction
+    routes (tuple over ONE shared bytes object, tuple over a fresh copy, raw text, friendly text, the copy constructor, a copy whose wc was
+    reassigned): a == b, b == a, a != b, hash equality and set membership agree with the reference."""
+    from pytoniq_core.boc import Address
+    accs = [bytes(32), bytes(range(32)), filler(rec.seed, 'c13-eq', 32)]
+
+    def routes(wc, h):
+        yield 'tuple-shared', Address((wc, h))
+        yield 'tuple-fresh', Address((wc, bytes(bytearray(h))))
+        yield 'raw', Address(f'{wc}:{h.hex()}')
+        yield 'friendly', Address(ref_friendly(wc, h, True, False, True))
+        a = Address((wc, h))
+        yield 'copy', Address(a)
+        c = Address(Address(((wc + 1) if wc < 127 else 0, h)))
+        c.wc = wc
+        yield 'copy-wc-reassigned', c
+    n = 0
+    for wc in range(-128, 128):
+        others = sorted({wc, wc + 1 if wc < 127 else -128, -wc - 1, 0, -1})
+        for h in accs:
+            for wc2 in others:
+                for h2 in (h, accs[(accs.index(h) + 1) % 3]) if wc2 == wc else (h,):
+                    for r1, a in routes(wc, h):
+                        for r2, b in routes(wc2, h2):
+                            n += 1
+                            want = (wc, h) == (wc2, h2)
+                            got = (a == b, b == a, not (a != b), len({a, b}) == 1)
+                            if want:
+                                got += (hash(a) == hash(b),)
+                            if any(g != want for g in got):
+                                rec.violation('equality', f'Address ({wc}, {h.hex()[:8]}..) made by {r1} and Address ({wc2}, {h2.hex()[:8]}..) made by {r2}: '
+                                              f'(a == b, b == a, not a != b, one set element{", equal hashes" if want else ""}) = {got}, reference says {"equal" if want else "different"}',
+                                              'shard_equality', {})
+                                rec.outcome('EQUALITY')
+                                return
+    rec.case('equality', n)
+    rec.trace(n)
+    rec.trans(n)
+    rec.bulk(states=n, nontrivial=n)
+    rec.covered('equality')
+    rec.outcome('equality-ok')
+
+
 def shards(tier, seed):
-    out = []
+    out = [{'fn': 'shard_equality', 'args': {}}]
     for lo in range(-128, 128, 16):
         out.append({'fn': 'shard_roundtrip', 'args': {'lo': lo, 'hi': lo + 15}})
     if tier == 'thorough':
